@@ -120,7 +120,7 @@ theorem pl5_succ (f : Nat) (ih : PAll5 s0 CS C f) : PL5 s0 CS C (f + 1) := by
           ⟨fun b k hm v hv => by
               obtain ⟨mv, h1, h2⟩ := hinv1.relG b k hm v hv
               exact ⟨mv, h1.grow hgl, h2⟩,
-            hacc1.grow hgl, hinv1.hr.store_eq hst, hinv1.out, hinv1.pool⟩
+            hacc1.grow hgl, hinv1.hr.store_eq hst, hinv1.out, hinv1.pool, hinv1.mok⟩
         have ihb := ih.bv Γ true b Γ1 hb hok μ1 { st1 with last := acc } (pos + 1 + sizeE c + 4) lp' _ stk g1 accv m1 out1 hinv1' hcb hext
         simp only
         cases hrb : evalBV f b { st1 with last := acc } with
